@@ -335,13 +335,13 @@ def tiling_identities(ctx):
     adj = [c for c in own_calls(f.node) if (dotted(c.func) or '').endswith('adjust_chunksize')]
     psn = norm(adj[0]._parent.targets[0]) if adj and isinstance(adj[0]._parent, ast.Assign) else None
     npd = [v for nm in npn[:1] for st, v in q.local_defs(f, nm) if isinstance(v, ast.AST)]
-    ctx.ob(f, 'num_parts = ceil(size / float(part_size))', len(npd) == 1 and psn is not None and _num_parts_expr_ok(npd[0], 'transfer_future.meta.size', psn), f'{[norm(v) for v in npd]}')
+    ctx.ob(f, 'num_parts = ceil(size / float(part_size))', len(npd) == 1 and psn is not None and _num_parts_expr_ok(q.alias_inline(f, npd[0]), 'transfer_future.meta.size', psn), f'{[norm(v) for v in npd]}')
     pl = part_loop(f, npn[0]) if npn else None
     ctx.ob(f, 'for part_number in range(1, num_parts + 1)', pl is not None, 'every part 1..n must be copied')
     cs = [c for c in own_calls(f.node) if (dotted(c.func) or '').split('.')[-1] == 'calculate_range_parameter']
     names = ('part_size', 'part_index', 'num_parts', 'total_size')
     gota = [q.argn(cs[0], nm, k) for k, nm in enumerate(names)] if len(cs) == 1 else None
-    got = [norm(a) for a in gota] if gota else None
+    got = [norm(q.alias_inline(f, a)) if a is not None else None for a in gota] if gota else None
     ok = len(cs) == 1 and pl is not None and bool(npn) and None not in gota and got[0] == psn and equal(gota[1], pl[1]) \
         and got[2] == npn[0] and got[3] == 'transfer_future.meta.size' and q.in_loop(cs[0]) is pl[0]
     ctx.ob(f, 'calculate_range_parameter(part_size, part_number - 1, num_parts, size)', ok, f'found {got}')
@@ -375,7 +375,7 @@ def tiling_identities(ctx):
             role['ps'] = pn_
         elif npn and norm(a_) == npn[0]:
             role['n'] = pn_
-        elif norm(a_) == 'transfer_future.meta.size':
+        elif norm(q.alias_inline(f, a_)) == 'transfer_future.meta.size':
             role['T'] = pn_
         elif pl is not None and equal(a_, pl[1]):
             role['pi'] = pn_
@@ -460,9 +460,19 @@ def limits_are_s3s_and_applied(ctx):
         and g.must_pass([g.entry], g.nodes_of(cl_[0]), [g.exit], g.NORMAL)
     ctx.ob(f, 'max-parts step (when size is known), then return the clamp', ok, 'the clamp to [5 MiB, 5 GiB] must be applied last and be what is returned')
     if ok:
-        v = mp[0]._parent.targets[0].id if isinstance(mp[0]._parent, ast.Assign) else None
-        ctx.ob(f, 'the clamp receives the max-parts-adjusted value', v is not None and norm(cl_[0].args[0]) == v and norm(mp[0].args[0]) == v and
-               any(norm(x) == f.params[1] for _, x in q.local_defs(f, v) if isinstance(x, ast.AST)), 'the two adjustments must be chained')
+        # path rule: what the clamp receives is the max-parts-adjusted configured chunksize when the size is known and the
+        # configured chunksize itself otherwise; the max-parts step starts from the configured chunksize
+        pv = q.path_values(g, f, g.nodes_of(cl_[0]), [cl_[0].args[0]])
+        okp = bool(pv)
+        for conds, vals, _ in pv or []:
+            v = vals[0]
+            if isinstance(v, ast.Call) and v is mp[0]:
+                okp = okp and q.guards_imply(conds, 'file_size is not None')
+            else:
+                okp = okp and isinstance(v, ast.AST) and norm(v) == f.params[1] and q.guards_imply(conds, 'file_size is None')
+        pv2 = q.path_values(g, f, g.nodes_of(mp[0]), [mp[0].args[0]]) if mp[0].args else None
+        okp = okp and bool(pv2) and all(isinstance(vals[0], ast.AST) and norm(vals[0]) == f.params[1] for _, vals, _ in pv2)
+        ctx.ob(f, 'the clamp receives the max-parts-adjusted value', okp, 'the two adjustments must be chained')
     c = ctx.func('utils.ChunksizeAdjuster._adjust_for_chunksize_limits')
     p = c.params[1]
     rets = [x for x in own_nodes(c.node) if isinstance(x, ast.Return)]
